@@ -345,9 +345,15 @@ pub(crate) fn point_satisfies_model(lp: &crate::transformers::LinearModel, value
             .fold((0.0, 0.0_f64), |(sum, scale), (coefficient, value)| {
                 (sum + coefficient * value, scale + (coefficient * value).abs())
             });
-        // relative to the right-hand side, with a small allowance for the
-        // round-off of the products themselves
-        let tolerance = 1e-6 * (1.0 + constraint.rhs().abs()) + 1e-12 * scale;
+        // relative to the right-hand side, with an allowance for the round-off
+        // of the products themselves; values so large that this round-off
+        // exceeds the tolerance (x = -3e19, y = 3e19 in x + y = 1) cannot be
+        // said to satisfy the row at all
+        let round_off = 4.0 * f64::EPSILON * scale;
+        if !round_off.is_finite() || round_off > 1e-6 * (1.0 + constraint.rhs().abs()) {
+            return false;
+        }
+        let tolerance = 1e-6 * (1.0 + constraint.rhs().abs()) + round_off;
         match constraint.constraint_type() {
             Comparison::LessOrEqual | Comparison::Less => lhs <= constraint.rhs() + tolerance,
             Comparison::GreaterOrEqual | Comparison::Greater => {
